@@ -126,7 +126,6 @@ typedef unsigned long uint64_t;
  */
 
 typedef int (*cmpfun)(const void *, const void *, void *);
-static unsigned char tmp[256];
 #ifdef HAVE___BUILTIN_CTZ
 #define ntz(x) __builtin_ctz((x))
 #else
@@ -168,6 +167,7 @@ static inline int pntz(size_t p[2]) {
 }
 
 static void cycle(size_t width, unsigned char *ar[], int n) {
+    unsigned char tmp[256];
     size_t l;
     int i;
 
@@ -183,6 +183,7 @@ static void cycle(size_t width, unsigned char *ar[], int n) {
         }
         width -= l;
     }
+    ar[n] = NULL;
 }
 
 /* shl() and shr() need n > 0 */
